@@ -1229,4 +1229,131 @@ theorem obsRunE_vals (tr : List ObsOpE) (o : Obs) :
       | turn => simp only [obsRunE, firesOfE, Obs.op]; rw [ih, obs_turn_vals]
       | fire v => simp only [obsRunE, firesOfE, Obs.op]; rw [ih, obs_fire_vals]; simp
 
+
+/-! ## the two reorder buffers of the Boss are independent -/
+
+/-- plaintexts of the `D.received_dilate` calls in a list of Boss calls -/
+def dRecvs (effs : List BEff) : List Bytes :=
+  effs.filterMap (fun e => match e with | .dReceived pt => some pt | _ => none)
+
+@[simp] theorem dRecvs_nil : dRecvs [] = [] := rfl
+@[simp] theorem dRecvs_append (a b : List BEff) : dRecvs (a ++ b) = dRecvs a ++ dRecvs b := by
+  simp [dRecvs, List.filterMap_append]
+theorem dRecvs_cons (e : BEff) (r : List BEff) :
+    dRecvs (e :: r) = (match e with | .dReceived pt => [pt] | _ => []) ++ dRecvs r := by
+  cases e <;> simp [dRecvs]
+@[simp] theorem dRecvs_map_wReceived (ds : List Bytes) : dRecvs (ds.map .wReceived) = [] := by
+  induction ds with
+  | nil => rfl
+  | cons d r ih => simp [dRecvs_cons, ih]
+@[simp] theorem dRecvs_map_dReceived (ds : List Bytes) : dRecvs (ds.map .dReceived) = ds := by
+  induction ds with
+  | nil => rfl
+  | cons d r ih => simp [dRecvs_cons, ih]
+
+/-- equal up to the dilate buffer -/
+def EqApp (b b' : BossD) : Prop := b.st = b'.st ∧ b.nextTx = b'.nextTx ∧ b.rx = b'.rx
+/-- equal up to the application buffer -/
+def EqDil (b b' : BossD) : Prop := b.st = b'.st ∧ b.nextTx = b'.nextTx ∧ b.drx = b'.drx
+
+/-- a Boss input that is a `dilate-N` message -/
+def isDilateIn : BIn → Bool
+  | .gotDilate _ _ => true
+  | .gotMessage ph _ => match classifyPhase ph with | .dilate _ => true | _ => false
+  | _ => false
+
+/-- a Boss input that is a numbered application message -/
+def isPhaseIn : BIn → Bool
+  | .gotPhase _ _ => true
+  | .gotMessage ph _ => match classifyPhase ph with | .numeric _ => true | _ => false
+  | _ => false
+
+theorem bossIn_congr_app (b b' : BossD) (x : BIn) (h : EqApp b b') :
+    EqApp (bossIn b x).1 (bossIn b' x).1 ∧ wRecvs (bossIn b x).2.1 = wRecvs (bossIn b' x).2.1 ∧
+      sSends (bossIn b x).2.1 = sSends (bossIn b' x).2.1 := by
+  obtain ⟨st, ntx, rx, drx⟩ := b
+  obtain ⟨st', ntx', rx', drx'⟩ := b'
+  obtain ⟨h1, h2, h3⟩ := h
+  simp only at h1 h2 h3
+  subst h1 h2 h3
+  cases x with
+  | gotMessage ph pt =>
+    simp only [bossIn, bossGotMessage]
+    cases classifyPhase ph <;> cases st <;>
+      simp [EqApp, bossStep, Boss.table, bossOuts, bossOut, takeTxPhase, wRecvs_cons, sSends_cons]
+  | _ =>
+    cases st <;>
+      simp [EqApp, bossIn, bossStep, Boss.table, bossOuts, bossOut, takeTxPhase, wRecvs_cons, sSends_cons]
+
+theorem bossIn_congr_dil (b b' : BossD) (x : BIn) (h : EqDil b b') :
+    EqDil (bossIn b x).1 (bossIn b' x).1 ∧ dRecvs (bossIn b x).2.1 = dRecvs (bossIn b' x).2.1 := by
+  obtain ⟨st, ntx, rx, drx⟩ := b
+  obtain ⟨st', ntx', rx', drx'⟩ := b'
+  obtain ⟨h1, h2, h3⟩ := h
+  simp only at h1 h2 h3
+  subst h1 h2 h3
+  cases x with
+  | gotMessage ph pt =>
+    simp only [bossIn, bossGotMessage]
+    cases classifyPhase ph <;> cases st <;>
+      simp [EqDil, bossStep, Boss.table, bossOuts, bossOut, takeTxPhase, dRecvs_cons]
+  | _ =>
+    cases st <;>
+      simp [EqDil, bossIn, bossStep, Boss.table, bossOuts, bossOut, takeTxPhase, dRecvs_cons]
+
+/-- a `dilate-N` input leaves the application side of the Boss alone and calls nothing of it -/
+theorem bossIn_dilate_app (b : BossD) (x : BIn) (hx : isDilateIn x = true) :
+    EqApp (bossIn b x).1 b ∧ wRecvs (bossIn b x).2.1 = [] ∧ sSends (bossIn b x).2.1 = [] := by
+  obtain ⟨st, ntx, rx, drx⟩ := b
+  cases x with
+  | gotMessage ph pt =>
+    simp only [isDilateIn] at hx
+    simp only [bossIn, bossGotMessage]
+    cases hc : classifyPhase ph <;> simp [hc] at hx
+    cases st <;> simp [EqApp, bossStep, Boss.table, bossOuts, bossOut, wRecvs_cons, sSends_cons]
+  | gotDilate n pt =>
+    cases st <;> simp [EqApp, bossIn, bossStep, Boss.table, bossOuts, bossOut, wRecvs_cons, sSends_cons]
+  | _ => simp [isDilateIn] at hx
+
+/-- a numbered application message leaves the dilation side of the Boss alone -/
+theorem bossIn_phase_dil (b : BossD) (x : BIn) (hx : isPhaseIn x = true) :
+    EqDil (bossIn b x).1 b ∧ dRecvs (bossIn b x).2.1 = [] := by
+  obtain ⟨st, ntx, rx, drx⟩ := b
+  cases x with
+  | gotMessage ph pt =>
+    simp only [isPhaseIn] at hx
+    simp only [bossIn, bossGotMessage]
+    cases hc : classifyPhase ph <;> simp [hc] at hx
+    cases st <;> simp [EqDil, bossStep, Boss.table, bossOuts, bossOut, dRecvs_cons]
+  | gotPhase n pt =>
+    cases st <;> simp [EqDil, bossIn, bossStep, Boss.table, bossOuts, bossOut, dRecvs_cons]
+  | _ => simp [isPhaseIn] at hx
+
+theorem bossRun_app_congr (tr : List BIn) (b b' : BossD) (acc acc' : List BEff) (h : EqApp b b')
+    (hacc : wRecvs acc = wRecvs acc' ∧ sSends acc = sSends acc') :
+    EqApp (bossRun b acc tr).1 (bossRun b' acc' tr).1 ∧ wRecvs (bossRun b acc tr).2 = wRecvs (bossRun b' acc' tr).2 ∧
+      sSends (bossRun b acc tr).2 = sSends (bossRun b' acc' tr).2 := by
+  induction tr generalizing b b' acc acc' with
+  | nil => exact ⟨h, hacc⟩
+  | cons x xs ih =>
+    simp only [bossRun]
+    have hs := bossIn_congr_app b b' x h
+    exact ih _ _ _ _ hs.1 ⟨by simp [hacc.1, hs.2.1], by simp [hacc.2, hs.2.2]⟩
+
+theorem bossRun_dil_congr (tr : List BIn) (b b' : BossD) (acc acc' : List BEff) (h : EqDil b b')
+    (hacc : dRecvs acc = dRecvs acc') :
+    EqDil (bossRun b acc tr).1 (bossRun b' acc' tr).1 ∧ dRecvs (bossRun b acc tr).2 = dRecvs (bossRun b' acc' tr).2 := by
+  induction tr generalizing b b' acc acc' with
+  | nil => exact ⟨h, hacc⟩
+  | cons x xs ih =>
+    simp only [bossRun]
+    have hs := bossIn_congr_dil b b' x h
+    exact ih _ _ _ _ hs.1 (by simp [hacc, hs.2])
+
+theorem bossRun_append (t1 t2 : List BIn) (b : BossD) (acc : List BEff) :
+    bossRun b acc (t1 ++ t2) = bossRun (bossRun b acc t1).1 (bossRun b acc t1).2 t2 := by
+  induction t1 generalizing b acc with
+  | nil => rfl
+  | cons x xs ih => simp only [List.cons_append, bossRun]; exact ih _ _
+
 end WV.Proofs.C03
